@@ -46,7 +46,7 @@ ASSUMPTIONS = [
     'reflected operations (number op dataset) and slicing are outside this property',
     'the name/what strings of results are not asserted (the property does not state them)',
 ]
-BUDGET = {'quick': {'cases': 6000, 'shards': 16, 'seconds': 120, 'shrink_s': 30},
+BUDGET = {'quick': {'cases': 24000, 'shards': 16, 'seconds': 120, 'shrink_s': 30},
           'thorough': {'cases': 220000, 'shards': 16, 'seconds': 900, 'shrink_s': 60}}
 FLOORS = {'flat': 0.80, 'chain': 0.06, 'rhs=neg-number': 0.06, 'rhs=neg-array-cell': 0.05,
           'rhs=dataset': 0.15, 'op=mutate': 0.05, 'op=copy': 0.03, 'op=mask': 0.04,
